@@ -17,7 +17,8 @@ pub const VALIDATORS: &[&str] = &[
 ];
 
 pub const KNOWN_EXTENSIONS: &[&str] = &[
-    "py", "rb", "sh", "rs", "js", "go", "ts", "toml", "yaml", "yml", "java", "c", "cpp",
+    "py", "rb", "sh", "rs", "js", "go", "ts", "toml", "yaml", "yml", "java", "c", "cpp", "cs", "kt", "swift",
+    "php",
 ];
 
 #[derive(Clone, Debug, PartialEq, Eq, PartialOrd, Ord, serde::Serialize, serde::Deserialize)]
